@@ -219,7 +219,7 @@ pub fn sweep(map: &Map, cmap_bytes: &[u8], font_bytes: &[u8], out: &mut Outcome)
                         fail!(m);
                     }
                 }
-                for &cp in &extras {
+                for &cp in extras.iter().filter(|c| **c > 0xFFFF) {
                     out.lookups += 1;
                     if let Some(g) = f4.map_codepoint(cp) {
                         fail!((
@@ -332,10 +332,6 @@ pub fn sweep(map: &Map, cmap_bytes: &[u8], font_bytes: &[u8], out: &mut Outcome)
             fail!(m);
         }
     }
-    let got: Vec<(u32, u32)> = charmap.mappings().map(|(c, g)| (c, g.to_u32())).collect();
-    if let Some(m) = diff_pairs("Charmap::mappings", &got, &want_all) {
-        fail!(m);
-    }
     // the cached-index construction path must select the same subtable
     let charmap2 = MappingIndex::new(&font).charmap(&font);
     for (c, g) in map.iter().step_by((map.len() / 512).max(1)) {
@@ -350,12 +346,17 @@ pub fn sweep(map: &Map, cmap_bytes: &[u8], font_bytes: &[u8], out: &mut Outcome)
             fail!(m);
         }
     }
+    let n1 = charmap.mappings().count();
     let n2 = charmap2.mappings().count();
-    if n2 != want_all.len() {
+    if n2 != n1 {
         fail!((
-            "MappingIndex::charmap.mappings:count".to_string(),
-            json!({"got": n2, "want": want_all.len()})
+            "MappingIndex::charmap.mappings:count-differs-from-Charmap::new".to_string(),
+            json!({"via_index": n2, "via_new": n1})
         ));
+    }
+    let got: Vec<(u32, u32)> = charmap.mappings().map(|(c, g)| (c, g.to_u32())).collect();
+    if let Some(m) = diff_pairs("Charmap::mappings", &got, &want_all) {
+        fail!(m);
     }
 }
 
